@@ -20,8 +20,9 @@ import numpy as np
 from mc import driver
 from checks import c04_model as model
 
-RULE = ("history: 9 operations (same primary / secondary moved by 1e-4 deg "
-        "across the distance threshold, primary moved, roles swapped, a "
+RULE = ("history: 11 operations (same primary / secondary moved by 1e-4 deg "
+        "across the distance threshold, secondary moved in longitude only, "
+        "the primary's points in another order, primary moved, roles swapped, a "
         "larger primary, that primary moved, magnitude_factor 1 with a "
         "larger secondary, the single pair (first, first), one point "
         "against two points next to it) on one reused Collocator: every "
@@ -42,11 +43,15 @@ SETS = {
     "W": ((40, 0, 10.0, 0.0),),
     # two points next to W: a comparison that broadcasts takes them for W
     "W2": ((41, 0, 10.0, 0.0), (42, 6, 10.00005, 0.0)),
+    # Y moved one degree east, latitudes unchanged: no partner of X any more
+    "Yl": ((24, 0, 10.0449, 1.0), (25, 6, 10.06, 1.0)),
+    # X given in the other order (the same points): the index still fits
+    "Xr": ((11, 6, 10.027, 0.0), (10, 0, 10.0, 0.0)),
 }
 # (primary, secondary, magnitude_factor)
 OPS = (("X", "Y", 10), ("X", "Y'", 10), ("X'", "Y", 10), ("Y", "X", 10),
        ("Z", "Y", 10), ("Z'", "Y", 10), ("Y'", "Z", 1), ("W", "W", 10),
-       ("W", "W2", 10))
+       ("W", "W2", 10), ("X", "Yl", 10), ("Xr", "Y", 10))
 INITIAL = (None, False)
 
 
